@@ -23,6 +23,8 @@ func init() {
 			{ID: "C11.R6", Floor: 4, Doc: "slices taken from published host/token snapshots are never written (no in-place filter, sort, shuffle or element store; helpers followed)", Run: ruleSharedSlices},
 			{ID: "C11.R7", Floor: 4, Doc: "the replicas of a token are looked up in the range that owns it: whole-ring search, wrap to entry 0 (=C10.R9)", Run: c10r9},
 			{ID: "C11.R8", Floor: 1, Doc: "the token-aware policy takes the replicas from the map of the keyspace the query runs in", Run: c11r8},
+			{ID: "C11.R9", Floor: 3, Doc: "ring construction and replica-map maintenance (=C10.R10)", Run: c10r10},
+			{ID: "C11.R10", Floor: 2, Doc: "the placement walks cover every ring position and wrap around (=C10.R4)", Run: c10r4},
 		},
 	})
 }
